@@ -65,8 +65,9 @@ def main():
         result["suite_regressions"] = missing
         # demonstration
         demo = open(os.path.join(mdir, "demo_test.go")).read()
-        ddir = (meta.get("demo_dir") or "test/demo").strip("/")
         pkgline = re.search(r"^package\s+(\w+)", demo, re.M).group(1)
+        # an external test package can live in any fresh directory of the module
+        ddir = "test/zzseed_%s" % name.lower()
         full = os.path.join(wt, ddir)
         os.makedirs(full, exist_ok=True)
         dfile = os.path.join(full, "zz_seed_demo_test.go")
